@@ -380,8 +380,10 @@ def enter_exit_rules(R, P):
                     if k_ == "truth" and isinstance(s_, str) and s_.endswith("." + flag) and not s_.startswith("self."):
                         return "F" if pos_ else "T"
                     return None
-                p = cfg.find_path([cfg.entry], [cfg.exit], N, cut_nodes=sites,
-                                  keep_edge=lambda e, cfg=cfg: not (already_paused(cfg.nodes[e.src]) is not None and e.label == already_paused(cfg.nodes[e.src])))
+                flags_ = set(t.id for x in ast.walk(m.node) if isinstance(x, ast.Assign) and isinstance(x.value, ast.Constant) and isinstance(x.value.value, bool)
+                             for t in x.targets if isinstance(t, ast.Name))
+                p = cfg.find_path_flags([cfg.entry], [cfg.exit], flags_, N, cut_nodes=sites,
+                                        keep_edge=lambda e, cfg=cfg: not (already_paused(cfg.nodes[e.src]) is not None and e.label == already_paused(cfg.nodes[e.src])))
                 R.check(p is None and sites, P + ".ENTER-EXIT", "%s:%s" % (m.qualname, hook), R.site(m),
                         "%s calls self.%s() on every path" % (m.name, hook),
                         "%s can return without calling self.%s(): %s" % (m.name, hook,
